@@ -198,7 +198,7 @@ class Check:
             else:
                 shutil.copy(f, d)
         cmd = ["timeout", "-s", "KILL", str(timeout), "java", "-Xss1g", "-Xmx" + heap, "-XX:+UseParallelGC",
-               "-cp", JAR, "tlc2.TLC", "-workers", str(workers), "-metadir", os.path.join(d, "meta"),
+               "-Djava.io.tmpdir=" + d, "-cp", JAR, "tlc2.TLC", "-workers", str(workers), "-metadir", os.path.join(d, "meta"),
                "-config", cfg]
         if simulate:
             cmd += ["-simulate", simulate]
